@@ -17,7 +17,7 @@ MANIFEST = {
     'technique': 'runtime monitoring: model-based oracle under both configurations + on/off differential + flag-flip monitor',
 }
 LEVEL = 'exploration'
-BUDGET = {'quick': 35, 'thorough': 300}
+BUDGET = {'quick': 60, 'thorough': 300}
 RULE = ('(document, option value, style); documents from the property product (0..3 table x 0..3 column properties x position x '
         'layout x string style) and seeded random documents with and without properties; distinct by text hash + option; '
         'non-trivial = document has a property, or the on/off differential was evaluated on a multi-element document')
